@@ -37,6 +37,8 @@ type params struct {
 	Gzip bool `json:"gzip,omitempty"`
 	// AllValues (kind values): every byte value at every offset, not only at the structural ones.
 	AllValues bool `json:"all_values,omitempty"`
+	// Dup (library sender): the message under attack is offered twice in its block.
+	Dup bool `json:"dup,omitempty"`
 }
 
 var Check = &vrt.Check{
@@ -95,6 +97,13 @@ func plan(seed int64, tier string) []vrt.Case {
 						Params: vrt.MustParams(params{Seed: seed, Leg: "lib", Msg: m, Kind: kind, Shard: sh, Shards: shards / 2, Pairs: pairs / len(msgs) / 4, Block: 3, Target: target})})
 				}
 			}
+		}
+	}
+	// the message under attack offered twice in its block (the receiver answers the second copy itself)
+	for _, m := range msgs {
+		for _, kind := range []string{"subst", "pairs", "struct"} {
+			cs = append(cs, vrt.Case{ID: fmt.Sprintf("lib-dup-m%d-%s", m, kind), TimeoutS: 1200,
+				Params: vrt.MustParams(params{Seed: seed, Leg: "lib", Msg: m, Kind: kind, Shard: 0, Shards: map[string]int{"subst": 8, "pairs": 1, "struct": 1}[kind], Pairs: 150, Dup: true})})
 		}
 	}
 	// gzip payloads (GZIP_EXPERIMENT on both stations)
@@ -162,6 +171,7 @@ type libLeg struct {
 	sc   *b2fx.Scenario
 	t    *target
 	gzip bool
+	dup  bool
 }
 
 func newLibLeg(class, block, tgt int, gzip bool) (*libLeg, error) {
@@ -195,7 +205,34 @@ func newLibLeg(class, block, tgt int, gzip bool) (*libLeg, error) {
 	return &libLeg{sc: sc, gzip: gzip}, nil
 }
 
+func newLibLegDup(class int) (*libLeg, error) {
+	l, err := newLibLeg(class, 1, 0, false)
+	if l != nil {
+		l.dup = true
+	}
+	return l, err
+}
+
 func (l *libLeg) truth() []byte { return l.sc.Truth["DAMAGED"] }
+
+// dupOut makes the sending station offer the message under attack twice (an outbox that holds two
+// copies of one MID, as a gateway glitch produces): the receiver answers the second copy on its own.
+type dupOut struct{ fbb.MBoxHandler }
+
+func (d dupOut) GetOutbound(fw ...fbb.Address) []*fbb.Message {
+	out := d.MBoxHandler.GetOutbound(fw...)
+	for _, m := range out {
+		if m.MID() == "DAMAGED" {
+			if b, err := m.Bytes(); err == nil {
+				c := new(fbb.Message)
+				if c.ReadFrom(bytes.NewReader(b)) == nil {
+					return append(out, c)
+				}
+			}
+		}
+	}
+	return out
+}
 
 func (l *libLeg) exec(edits []vpipe.Edit, record bool) (b2fx.Result, *vpipe.Link, []mem.Event) {
 	b2fx.SetGzip(l.gzip)
@@ -203,6 +240,9 @@ func (l *libLeg) exec(edits []vpipe.Edit, record bool) (b2fx.Result, *vpipe.Link
 	lg := &mem.Log{}
 	a, b := l.sc.Stations(lg)
 	sa, sb := l.sc.Sides(a, b)
+	if l.dup {
+		sa.Handler = dupOut{a.AsHandler()}
+	}
 	var pl vpipe.Plan
 	pl.CutDir = vpipe.NoCut
 	pl.Edits[vpipe.AtoB] = edits
@@ -249,7 +289,9 @@ func (l *libLeg) run(edits []vpipe.Edit) outcome {
 		case e.Kind == mem.EvProcessInbound && e.Station == "B" && l.sc.Truth[e.MID] == nil:
 			// a damaged transfer delivered under another identity is a delivery too
 			o.delivered, o.deliveredSum = true, e.Hash
-		case e.Kind == mem.EvSetSent && e.MID == "DAMAGED" && !e.Flag:
+		case e.Kind == mem.EvSetSent && e.MID == "DAMAGED":
+			// recorded as sent - as delivered (false) or as "the remote already has it" (true): either way
+			// the message leaves the outbox
 			o.setSent = true
 		}
 	}
@@ -413,7 +455,9 @@ func run(c vrt.Case) vrt.Obs {
 	var o vrt.Obs
 	var l leg
 	var err error
-	if p.Leg == "lib" {
+	if p.Leg == "lib" && p.Dup {
+		l, err = newLibLegDup(p.Msg)
+	} else if p.Leg == "lib" {
 		l, err = newLibLeg(p.Msg, p.Block, p.Target, p.Gzip)
 	} else {
 		l, err = newRefLeg(p.Msg, p.Seed, p.Gzip)
@@ -601,6 +645,30 @@ func run(c vrt.Case) vrt.Obs {
 					cut := blk[2+bl-k:]
 					try(fmt.Sprintf("shrink-block-ck%d@b%d", k, bi), []vpipe.Edit{{Off: int64(at + 1), Del: 1, Ins: []byte{byte(bl - k)}}, {Off: int64(at + 2 + bl - k), Del: k}, {Off: int64(eot + 1), Del: 1, Ins: []byte{t.stream[eot+1] + sumOf(cut)}}})
 				}
+			}
+		}
+		// the payload's CRC-16 field set to a distinguished value (0x0000: "no checksum"?, 0xffff) with the
+		// 8-bit block checksum kept valid by one compensating data byte - late in the stream, so that the
+		// decoded message headers survive
+		if len(f.Blocks) > 0 && len(f.Data) > 8 && t.code == 'C' {
+			var dpos []int // stream offsets of the data bytes
+			o2 := hdrEnd
+			for _, bl := range f.Blocks {
+				for j := 0; j < bl; j++ {
+					dpos = append(dpos, o2+2+j)
+				}
+				o2 += 2 + bl
+			}
+			for _, v := range []byte{0x00, 0xff} {
+				delta := (t.stream[dpos[0]] - v) + (t.stream[dpos[1]] - v) // what the two CRC bytes lose
+				for k := 1; k <= 48 && k < len(dpos)-6; k++ {
+					at := dpos[len(dpos)-k]
+					try(fmt.Sprintf("crc=%02x%02x+compensated@-%d", v, v, k), []vpipe.Edit{{Off: int64(dpos[0]), Del: 1, Ins: []byte{v}}, {Off: int64(dpos[1]), Del: 1, Ins: []byte{v}},
+						{Off: int64(at), Del: 1, Ins: []byte{t.stream[at] + delta}}})
+				}
+				// and with the checksum byte itself adjusted (no data byte touched: the content stays what the sender compressed)
+				try(fmt.Sprintf("crc=%02x%02x+checksum", v, v), []vpipe.Edit{{Off: int64(dpos[0]), Del: 1, Ins: []byte{v}}, {Off: int64(dpos[1]), Del: 1, Ins: []byte{v}},
+					{Off: int64(eot + 1), Del: 1, Ins: []byte{t.stream[eot+1] + delta}}})
 			}
 		}
 		// the title grown / shrunk with the header length byte adjusted (the reference accepts a different title text)
